@@ -8,7 +8,8 @@ MODULES = ["hta.trace_analysis", "hta.trace_diff"]
 MUST_NOT_RAISE = True
 BUDGET_S = {"quick": 420, "thorough": 3000}
 LONG = "void gemm<float>(int)"       # shortens to "gemm", colliding with the kernel named "gemm"
-NAMES = {"a": ("aten::mm", "cpu_op"), "b": ("aten::add", "cpu_op"), "g": ("gemm", "kernel"), "G": (LONG, "kernel")}
+NAMES = {"A": ("aten::mm", "user_annotation"), "a": ("aten::mm", "cpu_op"), "b": ("aten::add", "cpu_op"),
+         "g": ("gemm", "kernel"), "G": (LONG, "kernel")}      # "A": the same name under a second category
 BOUNDS = {
     "quick": "two traces, 1 rank each, 1..2 profiler steps, 17 selected pairs of 1..2 events per trace over {2 operator names, 2 kernel names "
              "(one shortening onto the other)} placed anywhere by symbolic Int times; device filter CPU/GPU/ALL; long and "
@@ -42,9 +43,9 @@ def skeletons(tier):
                 _sk("a", "ab"), _sk("a", "aa"), _sk("aa", "a"), _sk("a", "ag"), _sk("a", "ag", "CPU"),
                 _sk("g", "gG"), _sk("g", "gG", short=True), _sk("gG", "g", short=True),
                 _sk("a", "a", nsteps=2, iters="all", nsteps_t=1), _sk("g", "a", nsteps=2, iters="all", nsteps_t=1),
-                _sk("a", "a", nsteps=2, self_=True), _sk("ag", "ag", self_=True)]
+                _sk("a", "a", nsteps=2, self_=True), _sk("ag", "ag", self_=True), _sk("aA", "a"), _sk("a", "aA")]
     out = []
-    words = ["a", "g", "ab", "ag", "gG", "aa"]
+    words = ["a", "g", "ab", "ag", "gG", "aa", "aA"]
     for wc in words:
         for wt in words:
             for dev in ("ALL", "CPU", "GPU"):
@@ -74,8 +75,8 @@ def build(tag, word, nsteps, r=0):
     corr = 50
     for i, ch in enumerate(word):
         name, cat = NAMES[ch]
-        if cat == "cpu_op":
-            ev.append(TG.op(name, f"${p}e{i}_ts", f"${p}e{i}_dur"))
+        if cat in ("cpu_op", "user_annotation"):
+            ev.append(TG.op(name, f"${p}e{i}_ts", f"${p}e{i}_dur", cat=cat))
             items.append({"name": name, "stream": -1, "ts": f"${p}e{i}_ts", "dur": f"${p}e{i}_dur", "launch": None})
         else:
             ev.append(TG.runtime("cudaLaunchKernel", f"${p}l{i}_ts", f"${p}l{i}_dur", corr=corr))
